@@ -413,10 +413,56 @@ func blockCond(b *cfg.Block) ast.Expr {
 	return e
 }
 
-// DominatedByEdge reports whether every path from entry to site takes at
-// least one edge accepted by pass (pass is called with the atomic condition
-// of a two-way block, the polarity-stripped core, whether the edge is the
-// edge on which the *core* is true).
+// atomVal: an atomic (non-&&, non-||, non-!) condition known to have value Val.
+type atomVal struct {
+	E   ast.Expr
+	Val bool
+}
+
+// impliedAtoms collects the atomic conditions whose value is implied by
+// "e evaluates to val". go/cfg keeps a whole if-condition as one node, so
+// short-circuit structure is interpreted here: A&&B true ⇒ A, B true;
+// A||B false ⇒ A, B false; !A flips.
+func impliedAtoms(e ast.Expr, val bool, out *[]atomVal) {
+	e = unparen(e)
+	switch x := e.(type) {
+	case *ast.UnaryExpr:
+		if x.Op == token.NOT {
+			impliedAtoms(x.X, !val, out)
+			return
+		}
+	case *ast.BinaryExpr:
+		if x.Op == token.LAND {
+			if val {
+				impliedAtoms(x.X, true, out)
+				impliedAtoms(x.Y, true, out)
+			}
+			return
+		}
+		if x.Op == token.LOR {
+			if !val {
+				impliedAtoms(x.X, false, out)
+				impliedAtoms(x.Y, false, out)
+			}
+			return
+		}
+	}
+	*out = append(*out, atomVal{e, val})
+}
+
+// edgeAtoms returns the atomic facts established by taking edge succ of b.
+func edgeAtoms(b *cfg.Block, succ int) []atomVal {
+	cond := blockCond(b)
+	if cond == nil {
+		return nil
+	}
+	var out []atomVal
+	impliedAtoms(cond, succ == 0, &out)
+	return out
+}
+
+// DominatedByCond reports whether every path from entry to site takes at
+// least one edge that establishes an atomic fact accepted by pass(atom, value).
 func (c *FCFG) DominatedByCond(site ast.Node, pass func(core ast.Expr, coreTrue bool) bool) bool {
 	sp, ok := c.posOf(site)
 	if !ok {
@@ -428,14 +474,12 @@ func (c *FCFG) DominatedByCond(site ast.Node, pass func(core ast.Expr, coreTrue 
 			return ok && p == sp
 		},
 		EdgeBarrier: func(b *cfg.Block, succ int) bool {
-			cond := blockCond(b)
-			if cond == nil {
-				return false
+			for _, a := range edgeAtoms(b, succ) {
+				if pass(a.E, a.Val) {
+					return true
+				}
 			}
-			core, neg := stripNot(cond)
-			edgeTrue := succ == 0
-			coreTrue := edgeTrue != neg
-			return pass(core, coreTrue)
+			return false
 		},
 	})
 	return !found
